@@ -60,9 +60,14 @@ type faultCounter struct {
 	n      int64
 	failAt map[int64]bool
 	fired  int64
+	// failAll: every call fails and nothing is counted (used to provoke a failed call before the one under test)
+	failAll bool
 }
 
 func (f *faultCounter) hit() bool {
+	if f.failAll {
+		return true
+	}
 	i := atomic.AddInt64(&f.n, 1)
 	if f.failAt[i] {
 		atomic.AddInt64(&f.fired, 1)
@@ -96,7 +101,9 @@ func c12Build(c C12Case) (*c12Env, bool) {
 			return base(x)
 		}
 	}
-	def := mast.DefaultKeyCompare(json.Marshal)
+	// the default order, built (as LoadMast would) from the configured marshaler - here the fault-injecting one, so
+	// that a Marshal fault can also strike inside a comparison of keys that are ordered by their marshaled form
+	def := mast.DefaultKeyCompare(w.WrapMarshal(json.Marshal))
 	w.KeyCompare = func(a, b interface{}) (int, error) {
 		if e.armed && e.cmp.hit() {
 			return 0, errInjectedCmp
@@ -179,6 +186,13 @@ func c12Call(c C12Case, e *c12Env, arm bool) (opErr error, result string, post c
 			}
 			if err != nil {
 				return err, ""
+			}
+			if c.K%2 == 1 {
+				// the cursor has a failed move behind it: one move during which every read of the store fails
+				// (rolled back, or - when it needed no read - simply made), before the move under test
+				e.load.failAll, e.armed = true, true
+				_ = core.Safely("provoked failing move", func() error { return f(cur) })
+				e.load.failAll, e.armed = false, false
 			}
 			e.cur = cur
 			e.armed = arm
